@@ -108,8 +108,7 @@ Proof.
     destruct relative; cbn [andb].
     2:{ repeat (match goal with |- context [if ?c then _ else _] => destruct c end); discriminate. }
     destruct (- delta / 86400000000 =? 0) eqn:Ed; [apply Z.eqb_eq in Ed|].
-    2:{ rewrite !andb_true_r.
-        repeat (match goal with |- context [if ?c then _ else _] => destruct c end); discriminate. }
+    2:{ discriminate. }
     assert (Hrange : 0 <= - delta < 86400000000).
     { pose proof (Z.div_mod (- delta) 86400000000 ltac:(lia)).
       pose proof (Z.mod_pos_bound (- delta) 86400000000 ltac:(lia)). lia. }
